@@ -132,6 +132,21 @@ func run(rt *rapid.T) {
 		rt.Fatalf("GetPath: %v\n%s", err, desc())
 	}
 	part := wmpt.New(nil, nil)
+	if gen.Chance(rt, 25, "usedreceiver") {
+		// the receiving trie object has been used before: it already holds the reconstruction of another (non-empty) trie
+		other := wmpt.New(nil, nil)
+		ok := make([]byte, 32)
+		ok[0], ok[31] = 0xab, 0x01
+		_ = other.Update(ok, []byte("other-1"), 5)
+		ok2 := append([]byte(nil), ok...)
+		ok2[31] = 0x02
+		_ = other.Update(ok2, []byte("other-2"), 7)
+		od, err := other.GetPath([][]byte{ok})
+		if err != nil || part.Deserialize(od) != nil {
+			rt.Fatalf("HARNESS: preparing a used receiver: %v", err)
+		}
+		ev.Class("receiver-used-before", 1)
+	}
 	if err := part.Deserialize(data); err != nil {
 		rt.Fatalf("Deserialize(GetPath): %v\n%s", err, desc())
 	}
